@@ -40,7 +40,8 @@ func ClassifySink(key string) (string, string, bool) {
 		if dynVerbs[verb] {
 			return "dyn", verb, true
 		}
-	case strings.HasPrefix(typ, "metacontroller/pkg/client/generated/clientset/internalclientset/typed/metacontroller/v1alpha1.ControllerRevision"):
+	case strings.HasPrefix(typ, "metacontroller/pkg/client/generated/clientset/internalclientset/typed/metacontroller/v1alpha1.ControllerRevision"),
+		typ == "metacontroller/pkg/client/generated/clientset/internalclientset/typed/metacontroller/v1alpha1.controllerRevisions":
 		if revVerbs[verb] {
 			return "rev", verb, true
 		}
